@@ -1,0 +1,298 @@
+//! Verification hook (cfg ordinals_ord_verif): read-only dump of every index
+//! table in key order, with values parsed into plain public structures.
+#![allow(dead_code)]
+
+use super::*;
+
+#[derive(Debug, Clone, PartialEq)]
+pub struct UtxoDump {
+  pub outpoint: OutPoint,
+  pub raw: Vec<u8>,
+  pub value: u64,
+  pub sat_ranges: Option<Vec<(u64, u64)>>,
+  pub script_pubkey: Option<Vec<u8>>,
+  pub inscriptions: Option<Vec<(u32, u64)>>,
+}
+
+#[derive(Debug, Clone, PartialEq)]
+pub struct InscriptionEntryDump {
+  pub charms: u16,
+  pub fee: u64,
+  pub height: u32,
+  pub hidden: bool,
+  pub id: InscriptionId,
+  pub inscription_number: i32,
+  pub parents: Vec<u32>,
+  pub sat: Option<u64>,
+  pub sequence_number: u32,
+  pub timestamp: u32,
+}
+
+#[derive(Debug, Clone, Default, PartialEq)]
+pub struct Dump {
+  pub outpoint_to_utxo_entry: Vec<UtxoDump>,
+  pub sat_to_satpoint: Vec<(u64, SatPoint)>,
+  pub sat_to_sequence_number: Vec<(u64, Vec<u32>)>,
+  pub script_pubkey_to_outpoint: Vec<(Vec<u8>, Vec<OutPoint>)>,
+  pub sequence_number_to_children: Vec<(u32, Vec<u32>)>,
+  pub latest_child_to_collection: Vec<(u32, Vec<u32>)>,
+  pub collection_to_latest_child: Vec<(u32, u32)>,
+  pub gallery_sequence_numbers: Vec<u32>,
+  pub height_to_block_header: Vec<(u32, Header)>,
+  pub height_to_last_sequence_number: Vec<(u32, u32)>,
+  pub home_inscriptions: Vec<(u32, InscriptionId)>,
+  pub inscription_id_to_sequence_number: Vec<(InscriptionId, u32)>,
+  pub inscription_number_to_sequence_number: Vec<(i32, u32)>,
+  pub outpoint_to_rune_balances: Vec<(OutPoint, Vec<(RuneId, u128)>)>,
+  pub rune_id_to_rune_entry: Vec<(RuneId, RuneEntry)>,
+  pub rune_to_rune_id: Vec<(u128, RuneId)>,
+  pub sequence_number_to_inscription_entry: Vec<(u32, InscriptionEntryDump)>,
+  pub sequence_number_to_rune_id: Vec<(u32, RuneId)>,
+  pub sequence_number_to_satpoint: Vec<(u32, SatPoint)>,
+  pub statistic_to_count: Vec<(u64, u64)>,
+  pub transaction_id_to_rune: Vec<(Txid, u128)>,
+  pub transaction_id_to_transaction: Vec<(Txid, Vec<u8>)>,
+  pub write_transaction_starting_block_count_to_timestamp: Vec<(u32, u128)>,
+}
+
+impl Index {
+  pub fn verif_flags(&self) -> (bool, bool, bool, bool, bool) {
+    (
+      self.index_sats,
+      self.index_addresses,
+      self.index_inscriptions,
+      self.index_runes,
+      self.index_transactions,
+    )
+  }
+
+  pub fn verif_dump(&self) -> Result<Dump> {
+    let rtx = self.database.begin_read()?;
+    let mut dump = Dump::default();
+
+    for result in rtx.open_table(OUTPOINT_TO_UTXO_ENTRY)?.iter()? {
+      let (key, value) = result?;
+      let entry = value.value();
+      let parsed = entry.parse(self);
+      let sat_ranges = if self.index_sats {
+        Some(
+          parsed
+            .sat_ranges()
+            .chunks_exact(11)
+            .map(|chunk| SatRange::load(chunk.try_into().unwrap()))
+            .collect(),
+        )
+      } else {
+        None
+      };
+      dump.outpoint_to_utxo_entry.push(UtxoDump {
+        outpoint: OutPoint::load(*key.value()),
+        raw: <&UtxoEntry as redb::Value>::as_bytes(&entry).to_vec(),
+        value: parsed.total_value(),
+        sat_ranges,
+        script_pubkey: self
+          .index_addresses
+          .then(|| parsed.script_pubkey().to_vec()),
+        inscriptions: self.index_inscriptions.then(|| parsed.parse_inscriptions()),
+      });
+    }
+
+    for result in rtx.open_table(SAT_TO_SATPOINT)?.iter()? {
+      let (key, value) = result?;
+      dump
+        .sat_to_satpoint
+        .push((key.value(), SatPoint::load(*value.value())));
+    }
+
+    for result in rtx.open_multimap_table(SAT_TO_SEQUENCE_NUMBER)?.iter()? {
+      let (key, values) = result?;
+      let mut v = Vec::new();
+      for value in values {
+        v.push(value?.value());
+      }
+      dump.sat_to_sequence_number.push((key.value(), v));
+    }
+
+    for result in rtx.open_multimap_table(SCRIPT_PUBKEY_TO_OUTPOINT)?.iter()? {
+      let (key, values) = result?;
+      let mut v = Vec::new();
+      for value in values {
+        v.push(OutPoint::load(value?.value()));
+      }
+      dump
+        .script_pubkey_to_outpoint
+        .push((key.value().to_vec(), v));
+    }
+
+    for result in rtx.open_multimap_table(SEQUENCE_NUMBER_TO_CHILDREN)?.iter()? {
+      let (key, values) = result?;
+      let mut v = Vec::new();
+      for value in values {
+        v.push(value?.value());
+      }
+      dump.sequence_number_to_children.push((key.value(), v));
+    }
+
+    for result in rtx
+      .open_multimap_table(LATEST_CHILD_SEQUENCE_NUMBER_TO_COLLECTION_SEQUENCE_NUMBER)?
+      .iter()?
+    {
+      let (key, values) = result?;
+      let mut v = Vec::new();
+      for value in values {
+        v.push(value?.value());
+      }
+      dump.latest_child_to_collection.push((key.value(), v));
+    }
+
+    for result in rtx
+      .open_table(COLLECTION_SEQUENCE_NUMBER_TO_LATEST_CHILD_SEQUENCE_NUMBER)?
+      .iter()?
+    {
+      let (key, value) = result?;
+      dump
+        .collection_to_latest_child
+        .push((key.value(), value.value()));
+    }
+
+    for result in rtx.open_table(GALLERY_SEQUENCE_NUMBERS)?.iter()? {
+      let (key, _) = result?;
+      dump.gallery_sequence_numbers.push(key.value());
+    }
+
+    for result in rtx.open_table(HEIGHT_TO_BLOCK_HEADER)?.iter()? {
+      let (key, value) = result?;
+      dump
+        .height_to_block_header
+        .push((key.value(), Header::load(*value.value())));
+    }
+
+    for result in rtx.open_table(HEIGHT_TO_LAST_SEQUENCE_NUMBER)?.iter()? {
+      let (key, value) = result?;
+      dump
+        .height_to_last_sequence_number
+        .push((key.value(), value.value()));
+    }
+
+    for result in rtx.open_table(HOME_INSCRIPTIONS)?.iter()? {
+      let (key, value) = result?;
+      dump
+        .home_inscriptions
+        .push((key.value(), InscriptionId::load(value.value())));
+    }
+
+    for result in rtx.open_table(INSCRIPTION_ID_TO_SEQUENCE_NUMBER)?.iter()? {
+      let (key, value) = result?;
+      dump
+        .inscription_id_to_sequence_number
+        .push((InscriptionId::load(key.value()), value.value()));
+    }
+
+    for result in rtx
+      .open_table(INSCRIPTION_NUMBER_TO_SEQUENCE_NUMBER)?
+      .iter()?
+    {
+      let (key, value) = result?;
+      dump
+        .inscription_number_to_sequence_number
+        .push((key.value(), value.value()));
+    }
+
+    for result in rtx.open_table(OUTPOINT_TO_RUNE_BALANCES)?.iter()? {
+      let (key, value) = result?;
+      let buffer = value.value();
+      let mut balances = Vec::new();
+      let mut i = 0;
+      while i < buffer.len() {
+        let ((id, balance), length) = Index::decode_rune_balance(&buffer[i..])?;
+        i += length;
+        balances.push((id, balance));
+      }
+      dump
+        .outpoint_to_rune_balances
+        .push((OutPoint::load(*key.value()), balances));
+    }
+
+    for result in rtx.open_table(RUNE_ID_TO_RUNE_ENTRY)?.iter()? {
+      let (key, value) = result?;
+      dump
+        .rune_id_to_rune_entry
+        .push((RuneId::load(key.value()), RuneEntry::load(value.value())));
+    }
+
+    for result in rtx.open_table(RUNE_TO_RUNE_ID)?.iter()? {
+      let (key, value) = result?;
+      dump
+        .rune_to_rune_id
+        .push((key.value(), RuneId::load(value.value())));
+    }
+
+    for result in rtx
+      .open_table(SEQUENCE_NUMBER_TO_INSCRIPTION_ENTRY)?
+      .iter()?
+    {
+      let (key, value) = result?;
+      let entry = InscriptionEntry::load(value.value());
+      dump.sequence_number_to_inscription_entry.push((
+        key.value(),
+        InscriptionEntryDump {
+          charms: entry.charms,
+          fee: entry.fee,
+          height: entry.height,
+          hidden: entry.hidden,
+          id: entry.id,
+          inscription_number: entry.inscription_number,
+          parents: entry.parents,
+          sat: entry.sat.map(|sat| sat.n()),
+          sequence_number: entry.sequence_number,
+          timestamp: entry.timestamp,
+        },
+      ));
+    }
+
+    for result in rtx.open_table(SEQUENCE_NUMBER_TO_RUNE_ID)?.iter()? {
+      let (key, value) = result?;
+      dump
+        .sequence_number_to_rune_id
+        .push((key.value(), RuneId::load(value.value())));
+    }
+
+    for result in rtx.open_table(SEQUENCE_NUMBER_TO_SATPOINT)?.iter()? {
+      let (key, value) = result?;
+      dump
+        .sequence_number_to_satpoint
+        .push((key.value(), SatPoint::load(*value.value())));
+    }
+
+    for result in rtx.open_table(STATISTIC_TO_COUNT)?.iter()? {
+      let (key, value) = result?;
+      dump.statistic_to_count.push((key.value(), value.value()));
+    }
+
+    for result in rtx.open_table(TRANSACTION_ID_TO_RUNE)?.iter()? {
+      let (key, value) = result?;
+      dump
+        .transaction_id_to_rune
+        .push((Txid::load(*key.value()), value.value()));
+    }
+
+    for result in rtx.open_table(TRANSACTION_ID_TO_TRANSACTION)?.iter()? {
+      let (key, value) = result?;
+      dump
+        .transaction_id_to_transaction
+        .push((Txid::load(*key.value()), value.value().to_vec()));
+    }
+
+    for result in rtx
+      .open_table(WRITE_TRANSACTION_STARTING_BLOCK_COUNT_TO_TIMESTAMP)?
+      .iter()?
+    {
+      let (key, value) = result?;
+      dump
+        .write_transaction_starting_block_count_to_timestamp
+        .push((key.value(), value.value()));
+    }
+
+    Ok(dump)
+  }
+}
